@@ -134,6 +134,8 @@ struct Prepared {
     /// per client: (request bytes, resolved cas)
     clients: Vec<Vec<(Vec<u8>, u64)>>,
     init_state: LState,
+    /// tokens issued for the keys before the concurrent phase (both initial stores of each key)
+    init_tokens: Vec<(Vec<u8>, u64)>,
     opts: SchedOpts,
     /// total size of the records the program's stores can write (C14 bound)
     store_sizes: u64,
@@ -460,7 +462,11 @@ fn prepare(prog: &Program, opts: SchedOpts) -> Result<Prepared, String> {
                 .collect()
         })
         .collect();
-    Ok(Prepared { prog: prog.clone(), cfg, init_reqs, clock_after_init, clients, init_state, opts, store_sizes })
+    let mut init_tokens: Vec<(Vec<u8>, u64)> = vec![];
+    for (k, t) in stale.iter().chain(cur.iter()) {
+        init_tokens.push((k.clone(), *t));
+    }
+    Ok(Prepared { prog: prog.clone(), cfg, init_reqs, clock_after_init, clients, init_state, init_tokens, opts, store_sizes })
 }
 
 /// One controlled execution (runs inside shuttle).
@@ -649,6 +655,11 @@ fn evaluate(
     if viol.is_none() && p.opts.check_lin {
         // C02/C03: every successful mutation gives the item a CAS it has not carried before
         let mut seen: HashMap<(Vec<u8>, u64), usize> = HashMap::new();
+        // ... nor one that an earlier version of the key carried before the phase began (a client may
+        // still hold it): the generator never goes back, whatever a flush or a delete did in between
+        for (k, t) in &p.init_tokens {
+            seen.insert((k.clone(), *t), usize::MAX);
+        }
         for (i, o) in ops.iter().enumerate() {
             let cmd = &p.prog.clients[o.client][o.index];
             let mutating = matches!(cmd, Cmd::Store { .. } | Cmd::Concat { .. } | Cmd::Delta { .. });
@@ -657,7 +668,11 @@ fn evaluate(
                     if let Some(j) = seen.insert((k.to_vec(), r.cas), i) {
                         viol = Some((
                             "token-duplicated",
-                            format!("two acknowledged mutations of one key carry the same CAS {}: ops #{} and #{} of {}", r.cas, j, i, show_ops(ops)),
+                            if j == usize::MAX {
+                                format!("op #{} was acknowledged with CAS {}, which a version of this key stored before the concurrent phase already carried: {}", i, r.cas, show_ops(ops))
+                            } else {
+                                format!("two acknowledged mutations of one key carry the same CAS {}: ops #{} and #{} of {}", r.cas, j, i, show_ops(ops))
+                            },
                         ));
                         break;
                     }
